@@ -237,6 +237,12 @@ def spellings(q: Fraction):
         out.append(('Float', Float(s=s, c=a.numerator, exp=exp)))
         out.append(('Float2', Float(s=s, c=a.numerator << 3, exp=exp - 3)))
         out.append(('RealFloat', RealFloat(s=s, c=a.numerator, exp=exp)))
+        if a != 0:
+            # the same number as a Float that still carries the flags of an earlier, inexact rounding
+            import fpy2 as _fp
+            stale = _fp.MPFloatContext(max(1, a.numerator.bit_length()), _fp.RM.RTZ).round(q * (1 + Fraction(1, 2 ** 90)))
+            if stale.as_rational() == q and stale.inexact:
+                out.append(('FloatStaleFlags', stale))
         if d == 1:
             out.append(('int', int(q)))
         fl = float(q)
